@@ -177,6 +177,13 @@ def check(tier):
                         nprogs += len(other)
                         pairs += 1
                         jobs.append((bname, sites, base, other, ex.submit(vlib.validate_trace, work, oa, "TraceCT.cfg", "TraceCT", 1800, "6g", ob)))
+                    # directed contrasts: the base secrets with a quarter of them replaced by special values
+                    for c in range(2 if tier == "quick" else 4):
+                        other = suites.suite_C03(shape_seed, 1, tier if sh == 0 else "quick", contrast=(vlib.seed() * 1000 + sh) * 4 + c)
+                        ob = run_ct(drv, other, work, "ct-%s-%d-c%d" % (bname, sh, c))
+                        nprogs += len(other)
+                        pairs += 1
+                        jobs.append((bname, sites, base, other, ex.submit(vlib.validate_trace, work, oa, "TraceCT.cfg", "TraceCT", 1800, "6g", ob)))
             for bname, sites, base, other, fu in jobs:
                 r = fu.result()
                 for k in tot:
